@@ -186,15 +186,20 @@ Definition push_committed (m : mstate) (f : ver) : mstate :=
 Definition is_snapshot (l : level) : bool :=
   match l with RR | SER => true | _ => false end.
 
-Definition commit (m : mstate) (x : txrec) : mstate * out :=
+(* first phase of UpdateTx: the conflict test, made under the READ lock of the main store *)
+Definition conflict_flag (m : mstate) (x : txrec) : bool :=
+  let h := x_id x in
+  let m0 := set_reg m (reg_del (m_reg m) h) in
+  is_snapshot (x_lvl x) &&
+  existsb (fun k => match last_opt (sget (m_tx m0) 0 k) with
+                    | Some v => N.ltb (x_seq x) (v_seq v)
+                    | None => false end) (tx_keys m0 h).
+
+(* the rest of commit, given the outcome of the conflict test *)
+Definition commit_with_flag (conflict : bool) (m : mstate) (x : txrec) : mstate * out :=
   let h := x_id x in
   let m0 := set_reg m (reg_del (m_reg m) h) in
   let keys := tx_keys m0 h in
-  let conflict :=
-      is_snapshot (x_lvl x) &&
-      existsb (fun k => match last_opt (sget (m_tx m0) 0 k) with
-                        | Some v => N.ltb (x_seq x) (v_seq v)
-                        | None => false end) keys in
   (* per key: the last version is kept, the earlier ones are deleted *)
   let kept := flat_map (fun k => match last_opt (sget (m_tx m0) h k) with Some v => [v] | None => [] end) keys in
   let older := flat_map (fun k => removelast (sget (m_tx m0) h k)) keys in
@@ -203,6 +208,10 @@ Definition commit (m : mstate) (x : txrec) : mstate * out :=
   let m2 := unlink_tx m1 h in
   if conflict then (enqueue m2 (older ++ kept), OutErr ETxSerialization)
   else (enqueue (fold_left push_committed kept m2) older, OutUnit).
+
+(* sequentially the test and the publication see the same state *)
+Definition commit (m : mstate) (x : txrec) : mstate * out :=
+  commit_with_flag (conflict_flag m x) m x.
 
 Definition rollback (m : mstate) (h : N) : mstate :=
   match reg_find (m_reg m) h with
